@@ -1408,7 +1408,178 @@ def c01(ctx):
     ctx.assumptions += COMMON_ASSUMPTIONS + ['single-trait shapes, #[repr]/discriminant forms, Deref/Into designations are compiled (and reported the same way) by the checks of C02-C10 and C20']
 
 
+# ---------------------------------------------------------------- C18
+def c18(ctx):
+    import features
+    import itertools
+    import random
+    import subprocess
+    import re as _re
+    from concurrent.futures import ThreadPoolExecutor
+    quick = ctx.tier == 'quick'
+    facts = features.extract()
+    facts_path = os.path.join(ctx.workdir, 'facts.json')
+    json.dump(facts, open(facts_path, 'w'))
+    feats = facts['features']
+    res = tlcmod.run_mc('EduceFeatures', 'EduceFeatures.cfg', ctx.workdir, workers=4, timeout=600, tags=('BOUNDARY',), heap='4g', extra_env={'FACTS': facts_path})
+    ctx.info('TLC EduceFeatures: %s violated=%s' % (res['stats'], res['violated']))
+    ctx.coverage['states'] = res['stats'].get('distinct', 0)
+    ctx.coverage['transitions'] = res['stats'].get('generated', 0)
+    ctx.coverage['mc_runs'] = [{'module': 'EduceFeatures', 'cfg': 'EduceFeatures.cfg', 'stats': res['stats'], 'violated': res['violated']}]
+    ctx.coverage['exhaustive'] = not quick
+    predicted = []
+    if not res['ok']:
+        if res['violated'] is None:
+            raise ToolError('EduceFeatures could not be checked:\n' + '\n'.join(res['text'].split('\n')[-40:]))
+        # a violated gating invariant is a prediction about some subset; the real build decides (S3)
+        m = _re.search(r'S = \{([^}]*)\}', res['text'])
+        if m:
+            predicted.append(sorted(x.strip().strip('"') for x in m.group(1).split(',') if x.strip()))
+        ctx.note('the gating model predicts a broken subset (%s): %s' % (res['violated'], predicted))
+    boundary = [sorted(f for f, b in r['s'].items() if b) for r in res['tagged']['BOUNDARY']]
+    rnd = random.Random(ctx.seed)
+    subsets = []
+    if quick:
+        for k in (1, 2, len(feats) - 1, len(feats)):
+            subsets += [sorted(c) for c in itertools.combinations(feats, k)]
+        subsets += [sorted(rnd.sample(feats, rnd.randrange(3, len(feats) - 1))) for _ in range(24)]
+        mid = [b for b in boundary if 3 <= len(b) <= 5]
+        subsets += rnd.sample(mid, min(24, len(mid)))
+    else:
+        for k in range(1, len(feats) + 1):
+            subsets += [sorted(c) for c in itertools.combinations(feats, k)]
+    subsets += predicted
+    uniq = []
+    seen = set()
+    for s_ in subsets:
+        t = tuple(s_)
+        if t not in seen:
+            seen.add(t)
+            uniq.append(s_)
+    subsets = [[]] + uniq
+    jobs = 4 if quick else 12
+
+    def build(args):
+        k, sub = args
+        env = dict(os.environ)
+        env['CARGO_TARGET_DIR'] = os.path.join(ROOT_WORK, 'C18_tgt%d' % (k % jobs))
+        cmd = ['cargo', 'check', '--offline', '--no-default-features', '--message-format=json', '-q']
+        if sub:
+            cmd += ['--features', ','.join(sub)]
+        p = subprocess.run(cmd, cwd='/repo', stdout=subprocess.PIPE, stderr=subprocess.PIPE, text=True, env=env)
+        warnings = 0
+        msgs = []
+        for line in p.stdout.split('\n'):
+            if line.startswith('{'):
+                try:
+                    d = json.loads(line)
+                except ValueError:
+                    continue
+                if d.get('reason') == 'compiler-message' and (d.get('target') or {}).get('name') == 'educe':
+                    lvl = d['message'].get('level')
+                    if lvl == 'warning':
+                        warnings += 1
+                    if lvl in ('warning', 'error'):
+                        msgs.append(d['message'].get('message', '')[:300])
+        return {'op': 'build', 'features': sub, 'ok': p.returncode == 0, 'warnings': warnings,
+                'explicit': any('at least one of the trait features must be enabled' in m for m in msgs), 'msgs': msgs[:5]}
+
+    # the shared dependencies of one target directory are compiled once; keep each directory's jobs sequential
+    def run_lane(lane):
+        return [build((lane, sub)) for sub in subsets[lane::jobs]]
+    with ThreadPoolExecutor(max_workers=jobs) as ex:
+        lanes = list(ex.map(run_lane, range(jobs)))
+    builds = [b for lane in lanes for b in lane]
+    ctx.info('%d feature subsets built (cargo check of the crate itself)' % len(builds))
+    # expansions per subset against the all-features reference
+    pairs = model_check_tagged(ctx, [{'module': 'MC_C15', 'cfg': 'MC_C15_quick.cfg', 'workers': 8}], 'PAIRS')
+    ctx.coverage['states'] += res['stats'].get('distinct', 0)
+    inputs = {}
+    for ci, rec in enumerate(pairs, 1):
+        for pr in rec['pairs']:
+            r = MultiRender(ci, pr['restricted'], 'C18', canonical=False, name='T')
+            r.pool = None
+            text = r.item(derive=False)
+            inputs.setdefault(text, frozenset(pr['restricted']['opts']['traits']))
+    all_inputs = sorted(inputs.items())
+    ref_exe = xchan.build(ctx)
+    ref = {r['id']: r for r in xchan.expand(ref_exe, [{'id': t, 'text': t} for t, _ in all_inputs])}
+    if quick:
+        exp_subsets = [[f] for f in feats] + [['PartialEq', 'Eq'], ['Clone', 'Copy'], ['PartialOrd', 'Ord'], sorted(rnd.sample(feats, 5))]
+    else:
+        exp_subsets = [[f] for f in feats] + [sorted(c) for c in itertools.combinations(feats, 2)] + \
+                      [sorted(rnd.sample(feats, rnd.randrange(3, 11))) for _ in range(60)]
+    cap = 150 if quick else 600
+
+    def expand_lane(lane):
+        out = []
+        for sub in exp_subsets[lane::jobs]:
+            tdir = os.path.join(ROOT_WORK, 'C18_inproc%d' % lane)
+            try:
+                exe = xchan.build(None, features=sub, target_dir=tdir)
+            except ToolError as e:
+                # the crate does not build with this subset: that is an observation, not a tool failure
+                out.append({'op': 'build', 'features': sub, 'ok': False, 'warnings': 0, 'explicit': False, 'msgs': [str(e)[-600:]], 'via': 'in-process harness'})
+                continue
+            mine = [t for t, need in all_inputs if need <= set(sub)]
+            rl = random.Random(hash(tuple(sub)) ^ ctx.seed)
+            if len(mine) > cap:
+                mine = rl.sample(mine, cap)
+            reqs = [{'id': t, 'text': t} for t in mine]
+            dis = [f for f in feats if f not in sub]
+            reqs += [{'id': 'dis:' + f, 'text': '#[educe(%s)] struct T { a: u8 }' % f} for f in dis]
+            for r in xchan.expand1(exe, reqs):
+                if str(r['id']).startswith('dis:'):
+                    out.append({'op': 'disabled', 'features': sub, 'input': '#[educe(%s)] struct T { a: u8 }' % r['id'][4:], 'outcome': r['outcome'],
+                                'unsupported': 'unsupported trait' in (r.get('err') or '')})
+                else:
+                    out.append({'op': 'expand', 'features': sub, 'input': r['id'], 'outcome': r['outcome'],
+                                'out': xpipe.digest(r['out']) if r.get('out') is not None else '', 'ref': xpipe.digest(ref[r['id']]['out'] or '')})
+        return out
+    with ThreadPoolExecutor(max_workers=jobs) as ex:
+        exps = [e for lane in ex.map(expand_lane, range(jobs)) for e in lane]
+    ctx.info('%d expansions under %d feature subsets' % (len(exps), len(exp_subsets)))
+    trace = os.path.join(ctx.workdir, 'ftrace.ndjson')
+    allrec = builds + exps
+    with open(trace, 'w') as f:
+        for e in allrec:
+            e2 = {k: v for k, v in e.items() if k != 'msgs'}
+            e2.setdefault('ok', True)
+            e2.setdefault('warnings', 0)
+            e2.setdefault('explicit', False)
+            f.write(json.dumps(e2, separators=(',', ':')) + '\n')
+    tr = tlcmod.run_trace('TraceF', 'TraceF.cfg', ctx.workdir, {'TRACE': trace})
+    if not tr['consumed']:
+        raise ToolError('TraceF did not consume the trace:\n' + '\n'.join(tr['text'].split('\n')[-30:]))
+    ctx.info('F trace validated: %d records, %d rejected' % (tr['n'], len(tr['bad'])))
+    for ln in tr['bad']:
+        e = allrec[ln - 1]
+        ctx.violation({'kind': 'feature-subset', 'op': e['op'], 'features': e['features'], 'input': e.get('input', '')},
+                      {'what': 'a feature subset does not build cleanly / does not behave like the full build', 'record': e})
+    for pset in predicted:
+        b = [x for x in builds if x['features'] == pset]
+        if b and b[0]['ok'] and b[0]['warnings'] == 0:
+            ctx.note('gating model predicted a failure for %s but the real build is clean (model drift)' % pset)
+    ctx.coverage.update({
+        'traces_validated_against_impl': 1, 'trace_events': tr['n'], 'trace_events_rejected': len(tr['bad']),
+        'programs': len(builds), 'evaluations': len(allrec), 'distinct_nontrivial': len(builds) - 1,
+        'feature_subsets_built': len(builds), 'feature_subsets_expanded': len(exp_subsets), 'boundary_subsets_flagged_by_model': len(boundary),
+        'rule': 'gating facts extracted from the source and checked by TLC for all 4095 non-empty subsets; real `cargo check --no-default-features --features S` of the crate '
+                'for ' + ('the subsets of size 1, 2, 11, 12, 24 seeded random ones, a sample of the subsets TLC flags as gate boundaries, and the empty set'
+                          if quick else 'all 4095 subsets and the empty set') +
+                '; in-process expansion of inputs that only name enabled traits under a sample of subsets (singletons, coupled pairs, random) compared with the all-features '
+                'expansion, and one input per disabled trait; distinct_nontrivial = number of non-empty subsets built',
+        'samples': [builds[1], exps[0] if exps else {}],
+    })
+    ctx.assumptions += X_ASSUMPTIONS + ['cargo check of the proc-macro crate reports the same errors and warnings as a full build']
+
+
+import tlc as _tlc_for_paths
+ROOT_WORK = _tlc_for_paths.WORK
+
+
 REGISTRY = {
+    'C18': c18,
     'C01': c01,
     'C12': c12,
     'C11': c11,
